@@ -119,6 +119,25 @@ theorem VRel.tupleGet {ts : TyList} {v : Val} {bs : List Bool} (h : VRel (.agg (
   simp only [Val.encode, he]
   exact VRel.of_hasType ht
 
+/-- arguments of prescribed types (the fields of an enum variant) -/
+theorem ArgsRel.typed : ∀ (vs : ValList) (ts : TyList) (args : List (VTy × List Bool)), ArgsRel vs.toList args →
+    args.map (·.1) = ts.toList.map VTy.ofTy →
+    vs.haveTypes ts = true ∧ args.flatMap (·.2) = vs.encodeEach ts
+  | .nil, .nil, [], _, _ => by simp [ValList.haveTypes, ValList.encodeEach]
+  | .nil, _, _ :: _, h, _ => by simp [ValList.toList, ArgsRel] at h
+  | .cons _ _, _, [], h, _ => by simp [ValList.toList, ArgsRel] at h
+  | .nil, .cons _ _, [], _, ht => by simp [TyList.toList] at ht
+  | .cons _ _, .nil, _ :: _, _, ht => by simp [TyList.toList] at ht
+  | .cons v vs, .cons t ts, (t', bs) :: rest, h, ht => by
+    simp only [ValList.toList, ArgsRel] at h
+    simp only [List.map_cons, TyList.toList, List.cons.injEq] at ht
+    obtain ⟨ht1, ht2⟩ := ht
+    subst ht1
+    obtain ⟨h1, h2⟩ := h.1.hasType_encode
+    rw [VTy.toTy_ofTy] at h1 h2
+    obtain ⟨h3, h4⟩ := ArgsRel.typed vs ts rest h.2 ht2
+    simp only [ValList.haveTypes, h1, h3, Bool.and_self, List.flatMap_cons, ValList.encodeEach, ← h2, h4, true_and]
+
 /-! ### arrays -/
 
 /-- an array literal: elements of one type -/
